@@ -5,10 +5,14 @@ package main
 import (
 	"fmt"
 	"go/ast"
+	"go/printer"
 	"go/token"
 	"go/types"
+	"io"
 	"strings"
 )
+
+func printerFprint(w io.Writer, fset *token.FileSet, n any) error { return printer.Fprint(w, fset, n) }
 
 func (en *Engine) runScan(name string) (bool, string) {
 	switch name {
@@ -18,6 +22,16 @@ func (en *Engine) runScan(name string) (bool, string) {
 		return en.scanNoRecoverGo("seq")
 	case "seq-capture-discipline":
 		return en.scanCaptureDiscipline("seq")
+	case "rw-delay-elision":
+		return en.scanDelayElision()
+	case "rw-eta-guard":
+		return en.scanEtaGuard()
+	case "rw-symcnt-frame":
+		return en.scanSymCnt()
+	case "rw-per-file-rewriter":
+		return en.scanPerFileRewriter()
+	case "rw-no-package-state":
+		return en.scanRewriterPackageState()
 	case "seq-tail-calls":
 		return en.scanTailCalls("seq")
 	case "seq-no-driver-reentry":
@@ -256,4 +270,271 @@ func (en *Engine) driverReentryEdges(pkg string) []string {
 		})
 	}
 	return out
+}
+
+
+func (en *Engine) funcDecl(pkg, key string) *UnitInfo { return en.prog.Units[pkg+"."+key] }
+
+func exprText(en *Engine, e ast.Node) string {
+	var b strings.Builder
+	_ = printerFprint(&b, en.prog.Fset, e)
+	return b.String()
+}
+
+// scanDelayElision (C02, C07, C18): Delay(func() Seq { return X }) may be replaced by X only when evaluating X early is
+// unobservable: X is a call of a constructor proved effect-free whose arguments the rewriter only fills with thunks,
+// nil or such constructor calls, or a Bind whose first argument is a basic literal (any literal).
+func (en *Engine) scanDelayElision() (bool, string) {
+	u := en.funcDecl("rewriter", "optimizer.optimizeDelayCall")
+	if u == nil {
+		return false, "optimizer.optimizeDelayCall not found"
+	}
+	pure := map[string]bool{"cstDelay": true, "cstCombine": true, "cstFor": true, "cstWhile": true, "cstLoop": true,
+		"cstReturn": true, "cstNormal": true, "cstBreak": true, "cstContinue": true}
+	var bad []string
+	var whitelistVar, bindVar string
+	nCalleeOfUses := 0
+	ast.Inspect(u.Body, func(n ast.Node) bool {
+		as, ok := n.(*ast.AssignStmt)
+		if !ok || len(as.Lhs) != 1 || len(as.Rhs) != 1 {
+			return true
+		}
+		lhs, _ := as.Lhs[0].(*ast.Ident)
+		call, _ := as.Rhs[0].(*ast.CallExpr)
+		if lhs == nil || call == nil {
+			return true
+		}
+		if id, ok := call.Fun.(*ast.Ident); ok && id.Name == "calleeOf" && lhs.Name != "calleeOf" {
+			nCalleeOfUses++
+			whitelistVar = lhs.Name
+			for _, a := range call.Args {
+				aid, ok := a.(*ast.Ident)
+				if !ok || !pure[aid.Name] {
+					bad = append(bad, "Delay-elision whitelist contains "+exprText(en, a)+", which is not a constructor proved effect-free with thunk-only arguments")
+				}
+			}
+		}
+		// noEffectBindCall := AndEx[...](m, FuncCallee(m, bindFnObj, cstBind), &ast.CallExpr{Args: {MkPattern[BasicLitPattern](m, constTrue), Wildcard}})
+		if strings.Contains(exprText(en, call), "cstBind") && strings.Contains(exprText(en, call.Fun), "AndEx") {
+			bindVar = lhs.Name
+			txt := strings.Join(strings.Fields(exprText(en, call)), " ")
+			if !strings.Contains(txt, "matcher.MkPattern[BasicLitPattern](m, constTrue)") {
+				bad = append(bad, "the Bind case of the Delay-elision rule no longer restricts Bind's first argument to a basic literal: "+trunc(txt, 300))
+			}
+		}
+		return true
+	})
+	if nCalleeOfUses != 1 {
+		bad = append(bad, fmt.Sprintf("expected exactly one whitelist built with calleeOf(...), found %d", nCalleeOfUses))
+	}
+	// constTrue must be the constant-true predicate
+	okTrue := false
+	ast.Inspect(u.Body, func(n ast.Node) bool {
+		as, ok := n.(*ast.AssignStmt)
+		if ok && len(as.Lhs) == 1 {
+			if id, _ := as.Lhs[0].(*ast.Ident); id != nil && id.Name == "constTrue" {
+				if lit, _ := as.Rhs[0].(*ast.FuncLit); lit != nil && len(lit.Body.List) == 1 {
+					if ret, _ := lit.Body.List[0].(*ast.ReturnStmt); ret != nil && len(ret.Results) == 1 && exprText(en, ret.Results[0]) == "true" {
+						okTrue = true
+					}
+				}
+			}
+		}
+		return true
+	})
+	if !okTrue {
+		bad = append(bad, "constTrue is not the constant-true predicate")
+	}
+	// the alternatives under the bound "return" are exactly the whitelist and the literal-Bind pattern
+	body := strings.Join(strings.Fields(exprText(en, u.Body)), " ")
+	want := "Bind(m, \"return\", Or(m, " + whitelistVar + ", " + bindVar + ", ), )"
+	want2 := "Bind(m, \"return\", Or(m, " + whitelistVar + ", " + bindVar + "))"
+	if !strings.Contains(body, want) && !strings.Contains(body, want2) {
+		bad = append(bad, "the Delay-elision pattern is not Or(whitelist, literal-Bind) under the bound \"return\"")
+	}
+	if !strings.Contains(body, "c.Replace(ctx.Binds[\"return\"])") {
+		bad = append(bad, "the Delay-elision callback does not replace the match by the bound \"return\" expression")
+	}
+	if len(bad) > 0 {
+		return false, strings.Join(bad, "; ")
+	}
+	return true, ""
+}
+
+// scanEtaGuard (C07, C13): the eta-reduction callback replaces only under matched(...) && stableCallee(...).
+func (en *Engine) scanEtaGuard() (bool, string) {
+	u := en.funcDecl("rewriter", "optimizer.etaReduction#1")
+	if u == nil {
+		return false, "optimizer.etaReduction#1 (the match callback) not found"
+	}
+	var bad []string
+	nReplace := 0
+	var walk func(n ast.Node, guarded bool)
+	walk = func(n ast.Node, guarded bool) {
+		ast.Inspect(n, func(m ast.Node) bool {
+			switch y := m.(type) {
+			case *ast.IfStmt:
+				cond := strings.Join(strings.Fields(exprText(en, y.Cond)), " ")
+				g := guarded || (strings.Contains(cond, "matched(ctx, params, args)") && strings.Contains(cond, "stableCallee(ctx,") && !strings.Contains(cond, "||"))
+				walk(y.Body, g)
+				if y.Else != nil {
+					walk(y.Else, guarded)
+				}
+				return false
+			case *ast.CallExpr:
+				if sel, ok := y.Fun.(*ast.SelectorExpr); ok && sel.Sel.Name == "Replace" {
+					nReplace++
+					if !guarded {
+						bad = append(bad, "c.Replace at "+en.prog.pos(y)+" is not guarded by matched(ctx, params, args) && stableCallee(ctx, ...)")
+					}
+					if exprText(en, y.Args[0]) != "ctx.Binds[\"fun\"]" {
+						bad = append(bad, "the literal is replaced by "+exprText(en, y.Args[0])+", not by the bound callee")
+					}
+				}
+			}
+			return true
+		})
+	}
+	walk(u.Body, false)
+	if nReplace != 1 {
+		bad = append(bad, fmt.Sprintf("expected one Replace in the eta-reduction callback, found %d", nReplace))
+	}
+	if len(bad) > 0 {
+		return false, strings.Join(bad, "; ")
+	}
+	return true, ""
+}
+
+// scanSymCnt (C15): the unique-name counter is written only by gensym.
+func (en *Engine) scanSymCnt() (bool, string) {
+	var bad []string
+	for _, u := range en.prog.Units {
+		if u.Pkg.Name != "rewriter" || u.Lit != nil {
+			continue
+		}
+		ast.Inspect(u.Body, func(n ast.Node) bool {
+			var target ast.Expr
+			switch y := n.(type) {
+			case *ast.AssignStmt:
+				for _, l := range y.Lhs {
+					if sel, ok := l.(*ast.SelectorExpr); ok && sel.Sel.Name == "symCnt" {
+						target = l
+					}
+				}
+			case *ast.IncDecStmt:
+				if sel, ok := y.X.(*ast.SelectorExpr); ok && sel.Sel.Name == "symCnt" {
+					target = y.X
+				}
+			case *ast.KeyValueExpr:
+				if id, ok := y.Key.(*ast.Ident); ok && id.Name == "symCnt" {
+					target = y.Key
+				}
+			}
+			if target != nil && u.Key != "yieldRewriter.gensym" {
+				bad = append(bad, "symCnt written in "+u.Name+" at "+en.prog.pos(target))
+			}
+			return true
+		})
+	}
+	if len(bad) > 0 {
+		return false, strings.Join(bad, "; ")
+	}
+	return true, ""
+}
+
+// scanPerFileRewriter (C15): a fresh yieldRewriter (hence a fresh counter) is made once per file:
+// the only construction site is mkYieldRewriter, whose only call site is rewriteFile, outside any loop.
+func (en *Engine) scanPerFileRewriter() (bool, string) {
+	var bad []string
+	nCalls := 0
+	for _, u := range en.prog.Units {
+		if u.Pkg.Name != "rewriter" {
+			continue
+		}
+		if u.Lit != nil {
+			// literals are visited through their enclosing declaration
+			continue
+		}
+		var stack []ast.Node
+		ast.Inspect(u.Body, func(n ast.Node) bool {
+			if n == nil {
+				stack = stack[:len(stack)-1]
+				return true
+			}
+			stack = append(stack, n)
+			switch y := n.(type) {
+			case *ast.CompositeLit:
+				if exprText(en, y.Type) == "yieldRewriter" && u.Key != "mkYieldRewriter" {
+					bad = append(bad, "a yieldRewriter is constructed in "+u.Name+" at "+en.prog.pos(y))
+				}
+			case *ast.CallExpr:
+				if id, ok := y.Fun.(*ast.Ident); ok && id.Name == "mkYieldRewriter" {
+					nCalls++
+					if u.Key != "rewriter.rewriteFile" {
+						bad = append(bad, "mkYieldRewriter is called from "+u.Name+" at "+en.prog.pos(y))
+					}
+					for _, anc := range stack {
+						switch anc.(type) {
+						case *ast.ForStmt, *ast.RangeStmt:
+							bad = append(bad, "mkYieldRewriter is called inside a loop at "+en.prog.pos(y))
+						}
+					}
+				}
+			}
+			return true
+		})
+	}
+	if nCalls != 1 {
+		bad = append(bad, fmt.Sprintf("mkYieldRewriter has %d call sites, expected exactly one (in rewriteFile)", nCalls))
+	}
+	if len(bad) > 0 {
+		return false, strings.Join(bad, "; ")
+	}
+	return true, ""
+}
+
+// scanRewriterPackageState (C15): the compiler keeps no mutable package-level state between files:
+// the only package-level variables are the stateless factory X and runningWithGoTest (set at init).
+func (en *Engine) scanRewriterPackageState() (bool, string) {
+	pk := en.prog.Pkgs["rewriter"]
+	allowed := map[string]bool{"X": true, "runningWithGoTest": true}
+	var bad []string
+	for i, f := range pk.Syntax {
+		if strings.HasSuffix(pk.CompiledGoFiles[i], "_test.go") {
+			continue
+		}
+		for _, d := range f.Decls {
+			if gd, ok := d.(*ast.GenDecl); ok && gd.Tok == token.VAR {
+				for _, sp := range gd.Specs {
+					for _, n := range sp.(*ast.ValueSpec).Names {
+						if !allowed[n.Name] && n.Name != "_" {
+							bad = append(bad, "package-level variable "+n.Name+" at "+en.prog.pos(n))
+						}
+					}
+				}
+			}
+		}
+	}
+	// and neither of the allowed ones is assigned anywhere
+	for _, u := range en.prog.Units {
+		if u.Pkg.Name != "rewriter" || u.Lit != nil {
+			continue
+		}
+		ast.Inspect(u.Body, func(n ast.Node) bool {
+			if as, ok := n.(*ast.AssignStmt); ok {
+				for _, l := range as.Lhs {
+					if id, ok := l.(*ast.Ident); ok && allowed[id.Name] {
+						if v, ok := u.Pkg.TypesInfo.Uses[id].(*types.Var); ok && v.Parent() == v.Pkg().Scope() {
+							bad = append(bad, id.Name+" assigned in "+u.Name)
+						}
+					}
+				}
+			}
+			return true
+		})
+	}
+	if len(bad) > 0 {
+		return false, strings.Join(bad, "; ")
+	}
+	return true, ""
 }
